@@ -251,6 +251,14 @@ def r2_r3_step(ctx, E):
                         for _, x_ in v_[4]:
                             out_ += leaves(x_, d + 1)
                         return out_
+                    # a component advanced in place (`left.start += n` on the carried range): the written fields, and the other
+                    # position / end field of the same record unchanged
+                    ub_, wr_ = v_, {}
+                    while isinstance(ub_, tuple) and ub_ and ub_[0] == "upd" and isinstance(ub_[2], tuple) and ub_[2][0] == "f":
+                        wr_.setdefault(ub_[2][1], ub_[3])
+                        ub_ = ub_[1]
+                    if wr_ and d > 0:
+                        return list(wr_.values()) + [x_ for x_ in (S, En) if isinstance(x_, tuple) and x_[0] == "field" and x_[1] == ub_ and x_[2] not in wr_]
                     return [v_]
                 lv = leaves(nxt) if isinstance(nxt, tuple) else []
                 # a state record advanced in place (`state.pos += n`): the written fields, and every other field unchanged
